@@ -63,8 +63,14 @@ def analyse_grow(expr: ast.AST, arr: str, scope_funcs: Dict[str, ast.FunctionDef
         return None
     n = call_name(expr)
     # (a) append / concatenate pair
+    def _cl(e):
+        # a local bound once to the array / to the block of fresh rows (``table = self.X``)
+        return closure[e.id] if isinstance(e, ast.Name) and e.id in closure and depth == 0 else e
+
     if n == "np.append" and len(expr.args) >= 2:
-        first, fresh = expr.args[0], expr.args[1]
+        first, fresh = _cl(expr.args[0]), expr.args[1]
+        if canon(first) != arr and canon(_cl(fresh)) == arr:
+            fresh = _cl(fresh)
         old_first = canon(first) == arr
         if not old_first and canon(fresh) == arr:
             first, fresh = fresh, first
@@ -76,6 +82,10 @@ def analyse_grow(expr: ast.AST, arr: str, scope_funcs: Dict[str, ast.FunctionDef
                 "axis0": ax is not None and const_num(ax) == 0, "fresh": fresh, "copy_bound": "all"}
     if n in ("np.concatenate", "np.vstack") and expr.args and isinstance(expr.args[0], (ast.Tuple, ast.List)) and len(expr.args[0].elts) == 2:
         a, b = expr.args[0].elts
+        if canon(_cl(a)) == arr:
+            a = _cl(a)
+        elif canon(_cl(b)) == arr:
+            b = _cl(b)
         old_first = canon(a) == arr
         fresh = b if old_first else a
         if isinstance(fresh, ast.Name) and fresh.id in closure:
